@@ -20,7 +20,7 @@ Inductive iev :=
 | ICreate (d : option rvj)                    (* data seen by an event listener (not on the wire) *)
 | IDelete
 | IBad.                                       (* unparseable subject or payload *)
-Inductive ig := IGMissing | IGValue (v : rvj) | IGBad.
+Inductive ig := IGMissing | IGValue (v : rvj) | IGBad | IGErr.   (* IGErr: an error other than system.notFound *)
 
 Record hstep := HS {
   s_op : N;                       (* 0 Create 1 Update 2 Delete *)
@@ -144,9 +144,11 @@ Definition check_case (c : hcase) : list N :=
           3 client state after applying the published events differs from the fresh get
           4 events published although the served representation did not change
           5 event published on another resource id than the one get serves
-          6 unparseable event or get response ---- *)
+          6 unparseable event or get response
+          7 get answers an error other than system.notFound (the client can neither fetch the resource
+            nor learn that it is missing) ---- *)
 Definition cl_of (g : ig) : option (cstate jv) :=
-  match g with IGMissing => Some CMissing | IGValue v => Some (CPresent v) | IGBad => None end.
+  match g with IGMissing => Some CMissing | IGValue v => Some (CPresent v) | IGBad | IGErr => None end.
 Definition cstate_eqb (a b : cstate jv) : bool :=
   match a, b with
   | CMissing, CMissing => true
@@ -196,7 +198,7 @@ Fixpoint viol_steps (rid : bytes) (prev : ig) (c : option (cstate jv)) (steps : 
         then spurious ++ viol_steps rid (s_get s) (Some c1) r     (* the client keeps ITS state *)
         else 3 :: spurious ++ viol_steps rid (s_get s) (Some want) r
       end
-    | _, w => 6 :: viol_steps rid (s_get s) w r
+    | _, w => (match s_get s, prev with IGErr, _ | _, IGErr => 7 | _, _ => 6 end) :: viol_steps rid (s_get s) w r
     end
   end.
 Definition viol_case (c : hcase) : list N :=
